@@ -28,7 +28,8 @@ Lemma fault_predicates_inhabited :
   /\ has_fault_unknown_task w_D9_unknown_task_in_parallel_loop = true
   /\ has_fault_wrong_arity w_parloop_wrong_arity = true
   /\ has_fault_bad_limit w_D10_undeclared_limit = true /\ has_fault_bad_limit w_limit_unknown_attribute = true
-  /\ has_fault_bad_limit w_limit_string = true.
+  /\ has_fault_bad_limit w_limit_string = true
+  /\ has_fault_nested_array_literal w_D28_nested_array_element = true.
 Proof. vm_compute. repeat split; reflexivity. Qed.
 
 (* and none of them holds of the fault-free example *)
@@ -43,7 +44,8 @@ Lemma fault_predicates_false_on_good :
   /\ has_fault_wrong_arity w_good_small = false /\ has_fault_bad_parallel_loop w_good_small = false
   /\ has_fault_literal_missing_attribute w_good_small = false
   /\ has_fault_literal_unknown_attribute w_good_small = false
-  /\ has_fault_recursive_call w_good_small = false /\ has_fault_bad_limit w_good_small = false.
+  /\ has_fault_recursive_call w_good_small = false /\ has_fault_bad_limit w_good_small = false
+  /\ has_fault_nested_array_literal w_good_small = false.
 Proof. vm_compute. repeat split; reflexivity. Qed.
 
 (* for every AST of the grammar's shape "not accepted" is "reported with at least one message" *)
